@@ -470,7 +470,7 @@ Section EngineProofs.
     - inversion H; subst. exists [], 0%nat. repeat split.
     - destruct (op_eval o e s carg) as [res caps].
       destruct (xorb res neg).
-      + match type of H with eval_cands _ _ _ _ _ _ _ _ ?s2 (?md :: _) = _ =>
+      + match type of H with eval_cands _ _ _ _ _ _ _ ?s2 (?md :: _) = _ =>
           destruct (IH s2 (md :: acc) s' acc' H) as (n & k & He & Hl & Ht & Hf) end.
         destruct (on_match_ext e l lvl true vn key carg (apply_caps caps s)) as (n1 & He1 & Ht1 & Hf1).
         exists (n ++ n1), (S k). split; [|split; [|split]].
@@ -509,16 +509,16 @@ Section EngineProofs.
     eval_link op_eval e l lvl s = (s', mds) ->
     exists new, ext s s' new /\ act_tags new = concat (repeat (link_tags lvl l) (length mds)) /\ no_fd new.
   Proof.
-    unfold eval_link. intro H. destruct (l_op l) as [[[ts o] neg]|].
+    unfold eval_link. intro H. cbv zeta in H. destruct (l_op l) as [[[ts o] neg]|].
     - destruct (eval_targets op_eval e l lvl o neg ts (link_prologue e l s) []) as [s1 acc] eqn:E.
       inversion H; subst. destruct (eval_targets_ext e l lvl o neg _ _ _ _ _ E) as (n & k & He & Hl & Ht & Hf).
       exists n. split; [|split; [|exact Hf]].
       + unfold ext in *. rewrite He, link_prologue_trace. reflexivity.
       + rewrite rev_length, Hl. cbn [length]. rewrite Nat.add_0_r. exact Ht.
-    - inversion H; subst.
-      destruct (on_match_ext e l lvl false (var_name VUnknown) [] [] (link_prologue e l s)) as (n & He & Ht & Hf).
+    - destruct (on_match_ext e l lvl false (var_name VUnknown) [] [] (link_prologue e l s)) as (n & He & Ht & Hf).
+      injection H as Hs Hm. subst s' mds.
       exists n. split; [|split; [|exact Hf]].
-      + unfold ext in *. rewrite He, link_prologue_trace. reflexivity.
+      + unfold ext in *. etransitivity; [exact He|]. rewrite link_prologue_trace. reflexivity.
       + cbn [length repeat concat]. rewrite app_nil_r. exact Ht.
   Qed.
 
@@ -550,14 +550,14 @@ Section EngineProofs.
       destruct mds as [|md mds'].
       + inversion H; subst. exists n1. split; [exact He1|]. split; [|split; [exact Hf1|]].
         * cbn [chain_tags]. destruct r; cbn [chain_tags]; cbn [length repeat concat app] in *; rewrite Ht1; reflexivity.
-        * reflexivity.
+        * unfold chain_complete. cbn [length forallb Nat.eqb negb andb]. rewrite andb_false_r. reflexivity.
       + destruct (eval_chain op_eval e r (S lvl) s1) as [s2 rest] eqn:E2.
         destruct (IH _ _ _ _ E2) as (n2 & He2 & Ht2 & Hf2 & Hc2).
         inversion H; subst. exists (n2 ++ n1). split; [eapply ext_trans; eassumption|]. split; [|split].
         * cbn [chain_tags]. rewrite act_tags_app, Ht1, Ht2. reflexivity.
         * apply no_fd_app; assumption.
-        * unfold chain_complete in *. cbn [length forallb Nat.eqb negb andb].
-          destruct rest; rewrite <- Hc2 || rewrite <- Hc2; reflexivity.
+        * transitivity (chain_complete r (chain_counts e r (S lvl) s1)); [rewrite <- Hc2; destruct rest; reflexivity|].
+          unfold chain_complete. cbn [length forallb Nat.eqb negb andb]. reflexivity.
   Qed.
 
   (* counting in the tags of a walk: level lvl+k belongs to link k alone *)
@@ -584,3 +584,527 @@ Section EngineProofs.
       rewrite (IH (S lvl) cr k l i a Hk Hi Ha), count_link_tags_other by lia. lia.
   Qed.
 End EngineProofs.
+
+(* ------------------------------------------------------------------------------------ *)
+(* frames: what the individual steps leave alone                                        *)
+(* ------------------------------------------------------------------------------------ *)
+Lemma macro_expand_log e ev s m : macro_expand e (st_log ev s) m = macro_expand e s m.
+Proof. reflexivity. Qed.
+
+Lemma setvar_eval_fields e rid a s :
+  s_mv (setvar_eval e rid a s) = s_mv s /\ s_mvn (setvar_eval e rid a s) = s_mvn s /\
+  s_hs (setvar_eval e rid a s) = s_hs s /\ s_matched (setvar_eval e rid a s) = s_matched s /\
+  s_interrupted (setvar_eval e rid a s) = s_interrupted s /\ s_capture (setvar_eval e rid a s) = s_capture s.
+Proof. repeat split. Qed.
+
+Lemma run_nd_fields e rid lvl : forall acts idx s,
+  let s' := run_nd e rid lvl idx acts s in
+  s_mv s' = s_mv s /\ s_mvn s' = s_mvn s /\ s_hs s' = s_hs s /\ s_matched s' = s_matched s /\
+  s_interrupted s' = s_interrupted s /\ s_capture s' = s_capture s.
+Proof.
+  induction acts as [|a r IH]; intros idx s; cbn [run_nd]; [repeat split|].
+  destruct a; try apply IH.
+  - specialize (IH (S idx) (st_log (EvAct lvl idx name) s)). cbn zeta in IH. exact IH.
+  - specialize (IH (S idx) (setvar_eval e rid a (st_log (EvAct lvl idx (str "setvar")) s))). cbn zeta in IH.
+    exact IH.
+Qed.
+
+Lemma run_nd_app e rid lvl : forall a1 idx a2 s,
+  run_nd e rid lvl idx (a1 ++ a2) s = run_nd e rid lvl (idx + length a1) a2 (run_nd e rid lvl idx a1 s).
+Proof.
+  induction a1 as [|a r IH]; intros idx a2 s; cbn [app run_nd length].
+  - rewrite Nat.add_0_r. reflexivity.
+  - rewrite IH. replace (S idx + length r)%nat with (idx + S (length r))%nat by lia. reflexivity.
+Qed.
+
+(* C09_macro_at_that_moment: the j-th action of a match is a setvar; its key and value are
+   expanded in the state reached after the MATCHED_* update for this very match and after the
+   j preceding actions, where MATCHED_VAR / MATCHED_VAR_NAME still are this match's *)
+Lemma macro_at_that_moment {opid} e (l : link opid) lvl (known : bool) vn key value s pre a post :
+  l_actions l = pre ++ ASetvar a :: post ->
+  let s0 := if known then st_log (EvMatching (link_rid l) vn key) s else s in
+  let sp := run_nd e (l_id l) lvl 0 pre (st_match_variable vn key value s0) in
+  let k := macro_expand e sp (sv_key a) in
+  let v := macro_expand_opt e sp (sv_value a) in
+  on_match e l lvl known vn key value s =
+    run_nd e (l_id l) lvl (S (length pre)) post
+      (st_with_tx (st_log (EvSetvar k v (l_id l)) (st_log (EvAct lvl (length pre) (str "setvar")) sp))
+                  (setvar_apply (sv_remove a) (lower_ascii k) v (s_tx sp)))
+  /\ s_mv sp = value /\ s_mvn sp = sv_match_name vn key.
+Proof.
+  intros Hacts s0 sp k v. split; [|split].
+  - unfold on_match. fold s0. rewrite Hacts, run_nd_app. cbn [run_nd Nat.add]. fold sp.
+    replace (0 + length pre)%nat with (length pre) by lia. reflexivity.
+  - subst sp. destruct (run_nd_fields e (l_id l) lvl pre 0 (st_match_variable vn key value s0)) as (H & _). exact H.
+  - subst sp. destruct (run_nd_fields e (l_id l) lvl pre 0 (st_match_variable vn key value s0)) as (_ & H & _). exact H.
+Qed.
+
+(* ------------------------------------------------------------------------------------ *)
+(* flow / disruptive actions and MatchRule at rule level                                *)
+(* ------------------------------------------------------------------------------------ *)
+Definition fd_names (acts : list action) : list event :=
+  flat_map (fun a => match a with AFlow n => [EvFlow n] | ADisr n _ => [EvDisr n] | _ => [] end) acts.
+
+Lemma run_flow_disr_ext rid : forall acts s,
+  exists new, ext s (run_flow_disr rid acts s) new /\ act_tags new = [] /\ fd_events new = rev (fd_names acts) /\
+              s_tx (run_flow_disr rid acts s) = s_tx s /\ s_hs (run_flow_disr rid acts s) = s_hs s /\
+              s_matched (run_flow_disr rid acts s) = s_matched s.
+Proof.
+  induction acts as [|a r IH]; intro s; cbn [run_flow_disr fd_names flat_map].
+  - exists []. repeat split.
+  - destruct a as [name|sv|name d|name|name]; try apply IH.
+    + set (s1 := st_log (EvDisr name) s).
+      set (s2 := if d then match s_interrupted s1 with Some _ => s1 | None => _ end else s1).
+      assert (H2 : s_trace s2 = s_trace s1 /\ s_tx s2 = s_tx s /\ s_hs s2 = s_hs s /\ s_matched s2 = s_matched s).
+      { subst s2. destruct d; [destruct (s_interrupted s1)|]; repeat split. }
+      destruct H2 as (T2 & X2 & Hs2 & M2).
+      destruct (IH s2) as (n & He & Ht & Hf & Hx & Hh & Hm).
+      exists (n ++ [EvDisr name]). split; [|split; [|split; [|split; [|split]]]].
+      * unfold ext in *. rewrite He, T2. subst s1. cbn [st_log s_trace]. rewrite <- app_assoc. reflexivity.
+      * rewrite act_tags_app, Ht. reflexivity.
+      * rewrite fd_events_app, Hf. cbn [rev]. fold (fd_names r). rewrite rev_app_distr. reflexivity.
+      * rewrite Hx. exact X2.
+      * rewrite Hh. exact Hs2.
+      * rewrite Hm. exact M2.
+    + destruct (IH (st_log (EvFlow name) s)) as (n & He & Ht & Hf & Hx & Hh & Hm).
+      exists (n ++ [EvFlow name]). split; [|split; [|split; [|split; [|split]]]].
+      * unfold ext in *. rewrite He. cbn [st_log s_trace]. rewrite <- app_assoc. reflexivity.
+      * rewrite act_tags_app, Ht. reflexivity.
+      * rewrite fd_events_app, Hf. cbn [rev]. fold (fd_names r). rewrite rev_app_distr. reflexivity.
+      * exact Hx.
+      * exact Hh.
+      * exact Hm.
+Qed.
+
+Section RuleProofs.
+  Variable opid : Type.
+  Variable op_eval : opid -> env -> st -> bytes -> bool * list (N * bytes).
+
+  Definition rule_links (r : rule opid) : list (link opid) := r_head r :: r_chain r.
+  Definition rule_counts (e : env) (r : rule opid) (s : st) : list nat :=
+    chain_counts opid op_eval e (rule_links r) 0 s.
+
+  (* C09_once_per_match / C09_starter_once_per_chain at rule level *)
+  Lemma eval_rule_ext e (r : rule opid) s :
+    exists new, ext s (eval_rule op_eval e r s) new /\
+      act_tags new = chain_tags opid (rule_links r) 0 (rule_counts e r s) /\
+      fd_events new =
+        if chain_complete opid (rule_links r) (rule_counts e r s)
+        then (if (l_id (r_head r) =? 0)%Z then [] else [EvRuleMatched (l_id (r_head r))]) ++ rev (fd_names (l_actions (r_head r)))
+        else [].
+  Proof.
+    unfold eval_rule, rule_counts, rule_links.
+    destruct (eval_chain op_eval e (r_head r :: r_chain r) 0 s) as [s2 res] eqn:E.
+    destruct (eval_chain_ext opid op_eval e _ _ _ _ _ E) as (n & He & Ht & Hf & Hc).
+    rewrite <- Hc. destruct res as [all|].
+    - destruct (run_flow_disr_ext (link_rid (r_head r)) (l_actions (r_head r)) s2) as (n2 & He2 & Ht2 & Hf2 & _).
+      destruct (l_id (r_head r) =? 0)%Z.
+      + exists (n2 ++ n). split; [eapply ext_trans; eassumption|]. split.
+        * rewrite act_tags_app, Ht2, Ht. reflexivity.
+        * rewrite fd_events_app, Hf2, Hf, app_nil_r. reflexivity.
+      + exists (EvRuleMatched (l_id (r_head r)) :: n2 ++ n). split; [|split].
+        * unfold ext in *. unfold match_rule. destruct (first_msg _). cbn [s_trace st_log]. rewrite He2, He, app_assoc. reflexivity.
+        * cbn [act_tags flat_map app]. fold (act_tags (n2 ++ n)). rewrite act_tags_app, Ht2, Ht. reflexivity.
+        * cbn [fd_events filter ev_is_fd]. fold (fd_events (n2 ++ n)). rewrite fd_events_app, Hf2, Hf, app_nil_r. reflexivity.
+    - exists n. repeat split; assumption.
+  Qed.
+End RuleProofs.
+
+(* ------------------------------------------------------------------------------------ *)
+(* C09_sum: a counter only touched by +N / -N moves by exactly the sum over all matches  *)
+(* ------------------------------------------------------------------------------------ *)
+Definition tok_is_text (t : token) : bool := match tk_var t with VUnknown => true | _ => false end.
+(* a macro without variable references: its expansion is the text itself *)
+Definition macro_lit (m : macro) : option bytes :=
+  if forallb tok_is_text m then Some (flat_map tk_text m) else None.
+
+Lemma macro_lit_expand e s m k : macro_lit m = Some k -> macro_expand e s m = k.
+Proof.
+  unfold macro_lit, macro_expand. destruct (forallb tok_is_text m) eqn:E; [|discriminate].
+  intro H. inversion H; subst. clear H. induction m as [|t m IH]; [reflexivity|].
+  cbn [forallb] in E. apply andb_true_iff in E as [Et Em]. cbn [flat_map]. rewrite IH by exact Em.
+  f_equal. unfold expand_token, tok_is_text in *. destruct (tk_var t); try discriminate. reflexivity.
+Qed.
+
+(* the expanded key can never be [c]: a literal key different from c, or a literal first token
+   that is not a prefix of c (keys such as tx.cnt_%{MATCHED_VAR_NAME}) *)
+Definition key_avoids (c : bytes) (m : macro) : bool :=
+  match macro_lit m with
+  | Some k => negb (bytes_eqb (lower_ascii k) c)
+  | None => match m with
+            | t :: _ => tok_is_text t && negb (is_prefix (lower_ascii (tk_text t)) c)
+            | [] => false
+            end
+  end.
+
+Lemma is_prefix_app p x : is_prefix p (p ++ x) = true.
+Proof. induction p as [|a p IH]; [reflexivity|]. cbn [app is_prefix]. rewrite N.eqb_refl. exact IH. Qed.
+
+Lemma key_avoids_ne e s c m : key_avoids c m = true -> lower_ascii (macro_expand e s m) <> c.
+Proof.
+  unfold key_avoids. destruct (macro_lit m) as [k|] eqn:E.
+  - rewrite (macro_lit_expand e s m k E). intros H Heq. apply negb_true_iff, bytes_eqb_neq in H. contradiction.
+  - destruct m as [|t m]; [discriminate|]. intros H Heq. apply andb_true_iff in H as [Ht Hp].
+    unfold macro_expand in Heq. cbn [flat_map] in Heq.
+    assert (Hx : expand_token e s t = tk_text t).
+    { unfold expand_token, tok_is_text in *. destruct (tk_var t); try discriminate. reflexivity. }
+    rewrite Hx in Heq. unfold lower_ascii in Heq. rewrite map_app in Heq. subst c.
+    rewrite is_prefix_app in Hp. discriminate.
+Qed.
+
+(* the movement of counter [c] by one execution of a setvar; None: the action is outside the
+   hypothesis of C09_sum (assigns / deletes c, or may or may not hit c, or non-literal operand) *)
+Definition sv_delta (c : bytes) (a : setvar) : option Z :=
+  if key_avoids c (sv_key a) then Some 0%Z
+  else match macro_lit (sv_key a), sv_value a with
+       | Some k, Some vm =>
+         if bytes_eqb (lower_ascii k) c && negb (sv_remove a) then
+           match macro_lit vm with
+           | Some (sg :: rest) =>
+             if (sg =? 43) || (sg =? 45) then
+               match sv_operand rest with
+               | AOk n => Some (if sg =? 43 then n else (- n)%Z)
+               | AErr _ => None
+               end
+             else None
+           | _ => None
+           end
+         else None
+       | _, _ => None
+       end.
+Definition act_delta (c : bytes) (a : action) : option Z :=
+  match a with ASetvar sv => sv_delta c sv | _ => Some 0%Z end.
+Definition dl (c : bytes) (a : action) : Z := match act_delta c a with Some d => d | None => 0%Z end.
+Definition acts_ok (c : bytes) (acts : list action) : bool :=
+  forallb (fun a => match act_delta c a with Some _ => true | None => false end) acts.
+Fixpoint acts_delta (c : bytes) (acts : list action) : Z :=
+  match acts with [] => 0%Z | a :: r => (dl c a + acts_delta c r)%Z end.
+Fixpoint acts_abs (c : bytes) (acts : list action) : Z :=
+  match acts with [] => 0%Z | a :: r => (Z.abs (dl c a) + acts_abs c r)%Z end.
+
+Lemma acts_abs_nonneg c acts : (0 <= acts_abs c acts)%Z.
+Proof. induction acts; cbn [acts_abs]; lia. Qed.
+Lemma acts_delta_le_abs c acts : (Z.abs (acts_delta c acts) <= acts_abs c acts)%Z.
+Proof. induction acts; cbn [acts_abs acts_delta]; lia. Qed.
+
+Definition has_nondigit (c : bytes) : bool := existsb (fun b => negb (sv_is_digit b)) c.
+Definition inb (z A : Z) : Prop := (Z.abs z + A < two63)%Z.
+
+Lemma tx_counter_frame m m' c : tx_get m' c = tx_get m c -> tx_counter m' c = tx_counter m c.
+Proof. unfold tx_counter. intros ->. reflexivity. Qed.
+
+Lemma setvar_eval_counter e rid a s c z d :
+  sv_delta c a = Some d -> tx_counter (s_tx s) c = Some z -> inb z (Z.abs d) ->
+  tx_counter (s_tx (setvar_eval e rid a s)) c = Some (z + d)%Z.
+Proof.
+  intros Hd Hz Hb. unfold setvar_eval. cbn [st_with_tx st_log s_tx]. unfold sv_delta in Hd.
+  destruct (key_avoids c (sv_key a)) eqn:Ek.
+  - inversion Hd; subst d. rewrite Z.add_0_r, <- Hz. apply tx_counter_frame, setvar_apply_frame.
+    intro Heq. exact (key_avoids_ne e s c (sv_key a) Ek (eq_sym Heq)).
+  - destruct (macro_lit (sv_key a)) as [k|] eqn:Elk; [|discriminate].
+    destruct (sv_value a) as [vm|] eqn:Ev; [|discriminate].
+    destruct (bytes_eqb (lower_ascii k) c && negb (sv_remove a)) eqn:Ec; [|discriminate].
+    apply andb_true_iff in Ec as [Ekc Erm]. apply bytes_eqb_eq in Ekc. apply negb_true_iff in Erm.
+    destruct (macro_lit vm) as [[|sg rest]|] eqn:Elv; try discriminate.
+    destruct ((sg =? 43) || (sg =? 45)) eqn:Es; [|discriminate].
+    destruct (sv_operand rest) as [n|] eqn:En; [|discriminate]. inversion Hd; subst d. clear Hd.
+    rewrite (macro_lit_expand e s _ k Elk). unfold macro_expand_opt. rewrite (macro_lit_expand e s vm _ Elv).
+    rewrite Erm, Ekc. apply setvar_counter_step; try assumption.
+    + apply orb_true_iff in Es as [E1|E1]; apply N.eqb_eq in E1; [left|right]; exact E1.
+    + unfold inb, two63 in *. cbn zeta. lia.
+Qed.
+
+Lemma run_nd_counter e rid lvl c : forall acts idx s z,
+  acts_ok c acts = true -> tx_counter (s_tx s) c = Some z -> inb z (acts_abs c acts) ->
+  tx_counter (s_tx (run_nd e rid lvl idx acts s)) c = Some (z + acts_delta c acts)%Z.
+Proof.
+  induction acts as [|a r IH]; intros idx s z Hok Hz Hb; cbn [run_nd acts_delta acts_abs] in *.
+  - rewrite Z.add_0_r. exact Hz.
+  - cbn [acts_ok forallb] in Hok. apply andb_true_iff in Hok as [Ha Hr]. fold (acts_ok c r) in Hr.
+    pose proof (acts_abs_nonneg c r) as Hnn. unfold inb in *.
+    destruct a as [name|sv|name d|name|name]; unfold dl in *; cbn [act_delta] in *;
+      try (rewrite Z.add_0_l; apply IH; [exact Hr | exact Hz | unfold inb; cbn in Hb; lia]).
+    destruct (sv_delta c sv) as [d|] eqn:Ed; [|discriminate].
+    rewrite Z.add_assoc. apply IH; [exact Hr| |unfold inb; lia].
+    apply setvar_eval_counter; [exact Ed | exact Hz | unfold inb; lia].
+Qed.
+
+Lemma apply_caps_counter caps s c :
+  has_nondigit c = true -> tx_counter (s_tx (apply_caps caps s)) c = tx_counter (s_tx s) c.
+Proof.
+  intro Hc. unfold apply_caps. destruct (s_capture s); [|reflexivity]. cbn [st_with_tx s_tx].
+  apply tx_counter_frame. generalize (s_tx s). induction caps as [|[i v] r IH]; intro m; cbn [fold_left]; [reflexivity|].
+  rewrite IH. cbn [fst snd]. apply tx_get_setindex0_other. intro Heq. subst c.
+  unfold has_nondigit in Hc. apply existsb_exists in Hc as (b & Hin & Hb).
+  pose proof (itoa_digits i) as Hd. rewrite Forall_forall in Hd. rewrite (Hd b Hin) in Hb. discriminate.
+Qed.
+
+Section SumProofs.
+  Variable opid : Type.
+  Variable op_eval : opid -> env -> st -> bytes -> bool * list (N * bytes).
+  Variable c : bytes.
+  Hypothesis c_nondigit : has_nondigit c = true.
+
+  Definition link_delta (l : link opid) : Z := acts_delta c (l_actions l).
+  Definition link_abs (l : link opid) : Z := acts_abs c (l_actions l).
+  Definition link_ok (l : link opid) : bool := acts_ok c (l_actions l).
+
+  Lemma on_match_counter e (l : link opid) lvl known vn key value s z :
+    link_ok l = true -> tx_counter (s_tx s) c = Some z -> inb z (link_abs l) ->
+    tx_counter (s_tx (on_match e l lvl known vn key value s)) c = Some (z + link_delta l)%Z.
+  Proof.
+    intros Hok Hz Hb. unfold on_match. apply run_nd_counter; try assumption.
+    destruct known; exact Hz.
+  Qed.
+
+  Lemma scale_succ (k : nat) (A : Z) : (Z.of_nat (S k) * A = A + Z.of_nat k * A)%Z.
+  Proof. rewrite Nat2Z.inj_succ, Z.mul_succ_l. lia. Qed.
+
+  Lemma eval_cands_counter e (l : link opid) lvl o neg : link_ok l = true -> forall cands s acc s' acc' k z,
+    eval_cands op_eval e l lvl o neg cands s acc = (s', acc') ->
+    length acc' = (k + length acc)%nat ->
+    tx_counter (s_tx s) c = Some z -> inb z (Z.of_nat k * link_abs l) ->
+    tx_counter (s_tx s') c = Some (z + Z.of_nat k * link_delta l)%Z.
+  Proof.
+    intro Hok. pose proof (acts_abs_nonneg c (l_actions l)) as HA. fold (link_abs l) in HA.
+    pose proof (acts_delta_le_abs c (l_actions l)) as HD. fold (link_abs l) (link_delta l) in HD.
+    induction cands as [|[[vn key] carg] r IH]; intros s acc s' acc' k z H Hl Hz Hb; cbn [eval_cands] in H.
+    - inversion H; subst. assert (k = 0%nat) by lia. subst k. rewrite Z.mul_0_l, Z.add_0_r. exact Hz.
+    - destruct (op_eval o e s carg) as [res caps].
+      assert (Hz1 : tx_counter (s_tx (apply_caps caps s)) c = Some z) by (rewrite apply_caps_counter; assumption).
+      destruct (xorb res neg).
+      + match type of H with eval_cands _ _ _ _ _ _ _ ?s2 (?md :: _) = _ =>
+          destruct (eval_cands_ext opid op_eval e l lvl o neg r s2 (md :: acc) s' acc' H) as (n & k' & _ & Hl' & _) end.
+        cbn [length] in Hl'. assert (k = S k') by lia. subst k. rewrite scale_succ in *.
+        assert (0 <= Z.of_nat k' * link_abs l)%Z by (apply Z.mul_nonneg_nonneg; lia).
+        rewrite Z.add_assoc. eapply IH; [exact H | cbn [length]; lia | | unfold inb in *; lia].
+        apply on_match_counter; [exact Hok | exact Hz1 | unfold inb in *; lia].
+      + eapply IH; eassumption.
+  Qed.
+
+  Lemma eval_targets_counter e (l : link opid) lvl o neg : link_ok l = true -> forall ts s acc s' acc' k z,
+    eval_targets op_eval e l lvl o neg ts s acc = (s', acc') ->
+    length acc' = (k + length acc)%nat ->
+    tx_counter (s_tx s) c = Some z -> inb z (Z.of_nat k * link_abs l) ->
+    tx_counter (s_tx s') c = Some (z + Z.of_nat k * link_delta l)%Z.
+  Proof.
+    intro Hok. pose proof (acts_abs_nonneg c (l_actions l)) as HA. fold (link_abs l) in HA.
+    pose proof (acts_delta_le_abs c (l_actions l)) as HD. fold (link_abs l) (link_delta l) in HD.
+    induction ts as [|t r IH]; intros s acc s' acc' k z H Hl Hz Hb; cbn [eval_targets] in H.
+    - inversion H; subst. assert (k = 0%nat) by lia. subst k. rewrite Z.mul_0_l, Z.add_0_r. exact Hz.
+    - destruct (eval_cands op_eval e l lvl o neg (target_cands e l s t) s acc) as [s1 acc1] eqn:E.
+      destruct (eval_cands_ext opid op_eval e l lvl o neg _ _ _ _ _ E) as (n1 & k1 & _ & Hl1 & _).
+      destruct (eval_targets_ext opid op_eval e l lvl o neg _ _ _ _ _ H) as (n2 & k2 & _ & Hl2 & _).
+      assert (k = (k2 + k1)%nat) by lia. subst k. rewrite Nat2Z.inj_add, Z.mul_add_distr_r in *.
+      assert (0 <= Z.of_nat k1 * link_abs l)%Z by (apply Z.mul_nonneg_nonneg; lia).
+      assert (0 <= Z.of_nat k2 * link_abs l)%Z by (apply Z.mul_nonneg_nonneg; lia).
+      assert (Z.abs (Z.of_nat k1 * link_delta l) <= Z.of_nat k1 * link_abs l)%Z.
+      { rewrite Z.abs_mul, Z.abs_eq by lia. apply Z.mul_le_mono_nonneg_l; lia. }
+      pose proof (eval_cands_counter e l lvl o neg Hok _ _ _ _ _ k1 z E Hl1 Hz) as Hcs.
+      replace (z + (Z.of_nat k2 * link_delta l + Z.of_nat k1 * link_delta l))%Z
+        with ((z + Z.of_nat k1 * link_delta l) + Z.of_nat k2 * link_delta l)%Z by lia.
+      eapply IH; [exact H | exact Hl2 | apply Hcs; unfold inb in *; lia | unfold inb in *; lia].
+  Qed.
+
+  Lemma link_prologue_tx e (l : link opid) s : s_tx (link_prologue e l s) = s_tx s.
+  Proof. unfold link_prologue. destruct (l_msg l), (l_logdata l); reflexivity. Qed.
+
+  Lemma eval_link_counter e (l : link opid) lvl s s' mds z :
+    link_ok l = true -> eval_link op_eval e l lvl s = (s', mds) ->
+    tx_counter (s_tx s) c = Some z -> inb z (Z.of_nat (length mds) * link_abs l) ->
+    tx_counter (s_tx s') c = Some (z + Z.of_nat (length mds) * link_delta l)%Z.
+  Proof.
+    intros Hok H Hz Hb. unfold eval_link in H. cbv zeta in H. destruct (l_op l) as [[[ts o] neg]|].
+    - destruct (eval_targets op_eval e l lvl o neg ts (link_prologue e l s) []) as [s1 acc] eqn:E.
+      injection H as Hs Hm. subst s' mds. rewrite rev_length in *.
+      eapply eval_targets_counter; [exact Hok | exact E | cbn [length]; lia | rewrite link_prologue_tx; exact Hz | exact Hb].
+    - assert (Hz' : tx_counter (s_tx (link_prologue e l s)) c = Some z) by (rewrite link_prologue_tx; exact Hz).
+      pose proof (on_match_counter e l lvl false (var_name VUnknown) [] [] (link_prologue e l s) z Hok Hz') as Hom.
+      injection H as Hs Hm. subst s' mds. cbn [length] in *. rewrite Z.mul_1_l in *. apply Hom. exact Hb.
+  Qed.
+
+  (* the sum over the evaluated links of a chain walk: matches of the link times f link *)
+  Fixpoint chain_sum (f : link opid -> Z) (e : env) (links : list (link opid)) (lvl : nat) (s : st) : Z :=
+    match links with
+    | [] => 0%Z
+    | l :: r =>
+      let '(s1, mds) := eval_link op_eval e l lvl s in
+      (Z.of_nat (length mds) * f l + match mds with [] => 0 | _ => chain_sum f e r (S lvl) s1 end)%Z
+    end.
+
+  Lemma chain_sum_abs_nonneg e : forall links lvl s, (0 <= chain_sum link_abs e links lvl s)%Z.
+  Proof.
+    induction links as [|l r IH]; intros lvl s; cbn [chain_sum]; [lia|].
+    destruct (eval_link op_eval e l lvl s) as [s1 mds].
+    assert (0 <= Z.of_nat (length mds) * link_abs l)%Z by (apply Z.mul_nonneg_nonneg; [lia | apply acts_abs_nonneg]).
+    destruct mds; [lia|]. specialize (IH (S lvl) s1). lia.
+  Qed.
+
+  Lemma eval_chain_counter e : forall links lvl s s' res z,
+    forallb link_ok links = true -> eval_chain op_eval e links lvl s = (s', res) ->
+    tx_counter (s_tx s) c = Some z -> inb z (chain_sum link_abs e links lvl s) ->
+    tx_counter (s_tx s') c = Some (z + chain_sum link_delta e links lvl s)%Z.
+  Proof.
+    induction links as [|l r IH]; intros lvl s s' res z Hok H Hz Hb; cbn [eval_chain chain_sum forallb] in *.
+    - inversion H; subst. rewrite Z.add_0_r. exact Hz.
+    - apply andb_true_iff in Hok as [Hl Hr].
+      destruct (eval_link op_eval e l lvl s) as [s1 mds] eqn:E.
+      pose proof (acts_abs_nonneg c (l_actions l)) as HA. fold (link_abs l) in HA.
+      pose proof (acts_delta_le_abs c (l_actions l)) as HD. fold (link_abs l) (link_delta l) in HD.
+      assert (HkA : (0 <= Z.of_nat (length mds) * link_abs l)%Z) by (apply Z.mul_nonneg_nonneg; lia).
+      assert (HkD : (Z.abs (Z.of_nat (length mds) * link_delta l) <= Z.of_nat (length mds) * link_abs l)%Z).
+      { rewrite Z.abs_mul, Z.abs_eq by lia. apply Z.mul_le_mono_nonneg_l; lia. }
+      destruct mds as [|md mds'].
+      + inversion H; subst. rewrite Z.add_0_r in *. eapply eval_link_counter; [exact Hl | exact E | exact Hz | exact Hb].
+      + destruct (eval_chain op_eval e r (S lvl) s1) as [s2 rest] eqn:E2. inversion H; subst.
+        pose proof (chain_sum_abs_nonneg e r (S lvl) s1) as Hnn.
+        rewrite Z.add_assoc. eapply IH; [exact Hr | exact E2 | | unfold inb in *; lia].
+        eapply eval_link_counter; [exact Hl | exact E | exact Hz | unfold inb in *; lia].
+  Qed.
+
+  Definition rule_ok (r : rule opid) : bool := forallb link_ok (r_head r :: r_chain r).
+  Definition rule_sum (f : link opid -> Z) (e : env) (r : rule opid) (s : st) : Z :=
+    chain_sum f e (r_head r :: r_chain r) 0 s.
+
+  Lemma match_rule_tx (l : link opid) mds s : s_tx (match_rule l mds s) = s_tx s.
+  Proof. unfold match_rule. destruct (first_msg mds). reflexivity. Qed.
+
+  Lemma eval_rule_counter e (r : rule opid) s z :
+    rule_ok r = true -> tx_counter (s_tx s) c = Some z -> inb z (rule_sum link_abs e r s) ->
+    tx_counter (s_tx (eval_rule op_eval e r s)) c = Some (z + rule_sum link_delta e r s)%Z.
+  Proof.
+    intros Hok Hz Hb. unfold eval_rule, rule_sum in *.
+    destruct (eval_chain op_eval e (r_head r :: r_chain r) 0 s) as [s2 res] eqn:E.
+    pose proof (eval_chain_counter e _ _ _ _ _ z Hok E Hz Hb) as H.
+    destruct res as [all|]; [|exact H].
+    destruct (run_flow_disr_ext (link_rid (r_head r)) (l_actions (r_head r)) s2) as (n & _ & _ & _ & Hx & _).
+    destruct (l_id (r_head r) =? 0)%Z; [|rewrite match_rule_tx]; rewrite Hx; exact H.
+  Qed.
+
+  (* the sum over the rules evaluated in one phase, in order (mirrors eval_rules) *)
+  Fixpoint rules_sum (f : link opid -> Z) (e : env) (phase : N) (rs : list (rule opid)) (s : st) : Z :=
+    match rs with
+    | [] => 0%Z
+    | r :: rest =>
+      match s_interrupted s, negb (phase =? 5) with
+      | Some _, true => 0%Z
+      | _, _ =>
+        if r_phase r =? phase then
+          (rule_sum f e r (st_reset_mvs s) +
+           rules_sum f e phase rest (st_with_capture (eval_rule op_eval e r (st_reset_mvs s)) false))%Z
+        else rules_sum f e phase rest s
+      end
+    end.
+  Definition phase_sum (f : link opid -> Z) (e : env) (rs : list (rule opid)) (s : st) (phase : N) : Z :=
+    match s_interrupted s, negb (phase =? 5) with
+    | Some _, true => 0%Z
+    | _, _ => rules_sum f e phase rs s
+    end.
+  Fixpoint phases_sum (f : link opid -> Z) (e : env) (rs : list (rule opid)) (ps : list N) (s : st) : Z :=
+    match ps with
+    | [] => 0%Z
+    | p :: r => (phase_sum f e rs s p + phases_sum f e rs r (eval_phase op_eval e rs s p))%Z
+    end.
+  Definition tx_sum (f : link opid -> Z) (e : env) (rs : list (rule opid)) (s : st) : Z :=
+    phases_sum f e rs [1; 2; 3; 4; 5] s.
+
+  Lemma rules_sum_abs_nonneg e phase : forall rs s, (0 <= rules_sum link_abs e phase rs s)%Z.
+  Proof.
+    induction rs as [|r rest IH]; intro s; cbn [rules_sum]; [lia|].
+    destruct (s_interrupted s), (negb (phase =? 5)); try lia;
+      (destruct (r_phase r =? phase); [|apply IH];
+       pose proof (chain_sum_abs_nonneg e (r_head r :: r_chain r) 0 (st_reset_mvs s)) as H1; unfold rule_sum;
+       specialize (IH (st_with_capture (eval_rule op_eval e r (st_reset_mvs s)) false)); lia).
+  Qed.
+
+  Lemma eval_rules_counter e phase : forall rs s z,
+    forallb rule_ok rs = true -> tx_counter (s_tx s) c = Some z -> inb z (rules_sum link_abs e phase rs s) ->
+    tx_counter (s_tx (eval_rules op_eval e phase rs s)) c = Some (z + rules_sum link_delta e phase rs s)%Z.
+  Proof.
+    induction rs as [|r rest IH]; intros s z Hok Hz Hb; cbn [eval_rules rules_sum forallb] in *.
+    - rewrite Z.add_0_r. exact Hz.
+    - apply andb_true_iff in Hok as [Hr Hrest].
+      assert (Hstep : r_phase r =? phase = true ->
+        inb z (rule_sum link_abs e r (st_reset_mvs s) +
+               rules_sum link_abs e phase rest (st_with_capture (eval_rule op_eval e r (st_reset_mvs s)) false)) ->
+        tx_counter (s_tx (eval_rules op_eval e phase rest (st_with_capture (eval_rule op_eval e r (st_reset_mvs s)) false))) c =
+        Some (z + (rule_sum link_delta e r (st_reset_mvs s) +
+                   rules_sum link_delta e phase rest (st_with_capture (eval_rule op_eval e r (st_reset_mvs s)) false)))%Z).
+      { intros _ Hb'.
+        pose proof (chain_sum_abs_nonneg e (r_head r :: r_chain r) 0 (st_reset_mvs s)) as H1. fold (rule_sum link_abs e r (st_reset_mvs s)) in H1.
+        pose proof (rules_sum_abs_nonneg e phase rest (st_with_capture (eval_rule op_eval e r (st_reset_mvs s)) false)) as H2.
+        assert (Hz0 : tx_counter (s_tx (st_reset_mvs s)) c = Some z) by exact Hz.
+        assert (Hb0 : inb z (rule_sum link_abs e r (st_reset_mvs s))) by (unfold inb in *; lia).
+        pose proof (eval_rule_counter e r (st_reset_mvs s) z Hr Hz0 Hb0) as Hc.
+        rewrite Z.add_assoc. apply IH; [exact Hrest | exact Hc |].
+        assert (Z.abs (rule_sum link_delta e r (st_reset_mvs s)) <= rule_sum link_abs e r (st_reset_mvs s))%Z.
+        { clear - c. unfold rule_sum. generalize (r_head r :: r_chain r) 0%nat (st_reset_mvs s).
+          induction l as [|l0 l IHl]; intros lvl s0; cbn [chain_sum]; [lia|].
+          destruct (eval_link op_eval e l0 lvl s0) as [s1 mds].
+          pose proof (acts_abs_nonneg c (l_actions l0)) as HA. fold (link_abs l0) in HA.
+          pose proof (acts_delta_le_abs c (l_actions l0)) as HD. fold (link_abs l0) (link_delta l0) in HD.
+          assert (Z.abs (Z.of_nat (length mds) * link_delta l0) <= Z.of_nat (length mds) * link_abs l0)%Z.
+          { rewrite Z.abs_mul, Z.abs_eq by lia. apply Z.mul_le_mono_nonneg_l; lia. }
+          destruct mds; [lia|]. specialize (IHl (S lvl) s1). lia. }
+        unfold inb in *. lia. }
+      destruct (s_interrupted s) eqn:Ei, (negb (phase =? 5)) eqn:Ep;
+        try (rewrite Z.add_0_r; exact Hz);
+        (destruct (r_phase r =? phase) eqn:Eph; [apply Hstep; [reflexivity | exact Hb] | apply IH; assumption]).
+  Qed.
+
+  Lemma eval_phase_counter e rs s z phase :
+    forallb rule_ok rs = true -> tx_counter (s_tx s) c = Some z -> inb z (phase_sum link_abs e rs s phase) ->
+    tx_counter (s_tx (eval_phase op_eval e rs s phase)) c = Some (z + phase_sum link_delta e rs s phase)%Z.
+  Proof.
+    intros Hok Hz Hb. unfold eval_phase, phase_sum in *.
+    destruct (s_interrupted s), (negb (phase =? 5)); try (rewrite Z.add_0_r; exact Hz);
+      apply eval_rules_counter; assumption.
+  Qed.
+
+  Lemma phase_sum_abs_nonneg e rs s p : (0 <= phase_sum link_abs e rs s p)%Z.
+  Proof. unfold phase_sum. destruct (s_interrupted s), (negb (p =? 5)); try lia; apply rules_sum_abs_nonneg. Qed.
+
+  Lemma phases_sum_abs_nonneg e rs : forall ps s, (0 <= phases_sum link_abs e rs ps s)%Z.
+  Proof.
+    induction ps as [|p r IH]; intro s; cbn [phases_sum]; [lia|].
+    pose proof (phase_sum_abs_nonneg e rs s p). specialize (IH (eval_phase op_eval e rs s p)). lia.
+  Qed.
+
+  Lemma phase_sum_delta_le_abs e rs s p : (Z.abs (phase_sum link_delta e rs s p) <= phase_sum link_abs e rs s p)%Z.
+  Proof.
+    assert (Hchain : forall links lvl s0, (Z.abs (chain_sum link_delta e links lvl s0) <= chain_sum link_abs e links lvl s0)%Z).
+    { induction links as [|l0 l IHl]; intros lvl s0; cbn [chain_sum]; [lia|].
+      destruct (eval_link op_eval e l0 lvl s0) as [s1 mds].
+      pose proof (acts_abs_nonneg c (l_actions l0)) as HA. fold (link_abs l0) in HA.
+      pose proof (acts_delta_le_abs c (l_actions l0)) as HD. fold (link_abs l0) (link_delta l0) in HD.
+      assert (Z.abs (Z.of_nat (length mds) * link_delta l0) <= Z.of_nat (length mds) * link_abs l0)%Z.
+      { rewrite Z.abs_mul, Z.abs_eq by lia. apply Z.mul_le_mono_nonneg_l; lia. }
+      destruct mds; [lia|]. specialize (IHl (S lvl) s1). lia. }
+    assert (Hrules : forall l s0, (Z.abs (rules_sum link_delta e p l s0) <= rules_sum link_abs e p l s0)%Z).
+    { induction l as [|r rest IH]; intro s0; cbn [rules_sum]; [lia|].
+      destruct (s_interrupted s0), (negb (p =? 5)); try lia;
+        (destruct (r_phase r =? p); [|apply IH];
+         pose proof (Hchain (r_head r :: r_chain r) 0%nat (st_reset_mvs s0)) as H1; unfold rule_sum;
+         specialize (IH (st_with_capture (eval_rule op_eval e r (st_reset_mvs s0)) false)); lia). }
+    unfold phase_sum. destruct (s_interrupted s), (negb (p =? 5)); try lia; apply Hrules.
+  Qed.
+
+  Lemma phases_counter e rs : forallb rule_ok rs = true -> forall ps s z,
+    tx_counter (s_tx s) c = Some z -> inb z (phases_sum link_abs e rs ps s) ->
+    tx_counter (s_tx (fold_left (eval_phase op_eval e rs) ps s)) c = Some (z + phases_sum link_delta e rs ps s)%Z.
+  Proof.
+    intro Hok. induction ps as [|p r IH]; intros s z Hz Hb; cbn [fold_left phases_sum] in *.
+    - rewrite Z.add_0_r. exact Hz.
+    - pose proof (phase_sum_abs_nonneg e rs s p) as H1.
+      pose proof (phases_sum_abs_nonneg e rs r (eval_phase op_eval e rs s p)) as H2.
+      pose proof (phase_sum_delta_le_abs e rs s p) as H3.
+      rewrite Z.add_assoc. apply IH; [|unfold inb in *; lia].
+      apply eval_phase_counter; [exact Hok | exact Hz | unfold inb in *; lia].
+  Qed.
+
+  (* C09_sum *)
+  Theorem sum_exact e rs s z :
+    forallb rule_ok rs = true -> tx_counter (s_tx s) c = Some z -> inb z (tx_sum link_abs e rs s) ->
+    tx_counter (s_tx (eval_tx op_eval e rs s)) c = Some (z + tx_sum link_delta e rs s)%Z.
+  Proof. intros Hok Hz Hb. unfold eval_tx, tx_sum in *. apply phases_counter; assumption. Qed.
+End SumProofs.
